@@ -1,4 +1,4 @@
-import QuaiVerif.Model.Pool
+import QuaiVerif.Lemmas.Pool
 /-
 C19 (sequential core): after every submission and every head change the pool's per-account lists satisfy the
 property's invariants.  Proved on the model for all histories: the pending list is nonce-contiguous from the state
@@ -198,6 +198,69 @@ theorem C19_every_reachable_state_contiguous (bump : Nat) (a : Acct) (evs : List
     cases e with
     | submit t => exact C19_add_keeps_pending_contiguous bump a t h
     | head n b re => exact C19_reset_pending_contiguous bump a n b re
+
+-- No nonce is held twice: in particular no transaction is both pending and queued --------------------------------
+
+/-- A submission keeps every nonce held at most once across pending and queue. -/
+theorem C19_add_keeps_nonces_unique (bump : Nat) (a : Acct) (t : Tx) (h : Uniq a) : Uniq (add bump a t).1 := by
+  have h1 := uniq_addNoPromote bump t h
+  unfold add
+  cases hr : (addNoPromote bump a t).2 <;> simp only [hr] <;> first | exact uniq_promote h1 | exact h1
+
+theorem uniq_fold_addNoPromote (bump : Nat) (l : List Tx) (a : Acct) (h : Uniq a) :
+    Uniq (l.foldl (fun acc t => (addNoPromote bump acc t).1) a) := by
+  induction l generalizing a with
+  | nil => exact h
+  | cons x rest ih => exact ih _ (uniq_addNoPromote bump x h)
+
+/-- A head change (with re-injection, promotion from the new state nonce and demotion) keeps every nonce held at most
+once: nothing is both pending and queued afterwards. -/
+theorem C19_reset_keeps_nonces_unique (bump : Nat) (a : Acct) (n b : Nat) (re : List Tx) (h : Uniq a) :
+    Uniq (reset bump a n b re) := by
+  have h0 : Uniq ({ a with stateNonce := n, balance := b } : Acct) := h
+  have h1 := uniq_fold_addNoPromote bump re _ h0
+  intro m
+  simp only [reset]
+  generalize hA : (re.foldl (fun acc t => (addNoPromote bump acc t).1) { a with stateNonce := n, balance := b }) = a1 at h1 ⊢
+  have hu := h1 m
+  rw [cnt_append] at hu
+  -- abbreviations
+  generalize hq : ((a1.queue.filter (fun t => decide (n ≤ t.nonce))).filter (fun t => decide (t.cost ≤ b))) = q
+  have hq1 : cnt m q ≤ cnt m a1.queue := by
+    rw [← hq]
+    exact Nat.le_trans (cnt_filter_le _ _ _) (cnt_filter_le _ _ _)
+  have hr := cnt_takeReady q.length [] q n m
+  rw [cnt_append] at hr
+  simp only [List.nil_append] at hr
+  generalize hR : takeReady q.length [] q n = r at hr ⊢
+  have hp3 : cnt m ((sortByNonce (a1.pending ++ r.1)).filter (fun t => decide (n ≤ t.nonce))) ≤ cnt m a1.pending + cnt m r.1 := by
+    refine Nat.le_trans (cnt_filter_le _ _ _) ?_
+    rw [cnt_sortByNonce, cnt_append]; exact Nat.le_refl _
+  have hf := cnt_filterStrict m b ((sortByNonce (a1.pending ++ r.1)).filter (fun t => decide (n ≤ t.nonce)))
+  generalize hF : filterStrict b ((sortByNonce (a1.pending ++ r.1)).filter (fun t => decide (n ≤ t.nonce))) = f at hf ⊢
+  have hc := congrArg (cnt m) (takeContig_append n f.1)
+  rw [cnt_append] at hc
+  simp only [cnt_append]
+  omega
+
+/-- Whole histories: in every reachable state no nonce is held twice (hence no transaction is both pending and
+queued) and the pending list is contiguous from the state nonce. -/
+theorem C19_every_reachable_state_consistent (bump : Nat) (a : Acct) (evs : List Ev)
+    (h : Contig a.stateNonce a.pending) (hu : Uniq a) :
+    Contig (evs.foldl (apply bump) a).stateNonce (evs.foldl (apply bump) a).pending ∧ Uniq (evs.foldl (apply bump) a) := by
+  induction evs generalizing a with
+  | nil => exact ⟨h, hu⟩
+  | cons e rest ih =>
+    apply ih
+    · cases e with
+      | submit t => exact C19_add_keeps_pending_contiguous bump a t h
+      | head n b re => exact C19_reset_pending_contiguous bump a n b re
+    · cases e with
+      | submit t => exact C19_add_keeps_nonces_unique bump a t hu
+      | head n b re => exact C19_reset_keeps_nonces_unique bump a n b re hu
+
+/-- The empty pool satisfies both. -/
+example : Contig ({} : Acct).stateNonce ({} : Acct).pending ∧ Uniq ({} : Acct) := ⟨trivial, fun _ => by simp [cnt]⟩
 
 /-- Non-vacuity and the shape of the defect fixed in demoteUnexecutables: state nonce 5, pending 7, 8; a reorg
 re-injects 5 (6 is no longer affordable): only 5 stays pending, 7 and 8 wait in the queue. -/
